@@ -75,12 +75,27 @@ impl RegexMatcherBuilder {
         // then run the original regex on only that line. (In this case, the
         // regex engine is likely to handle this case for us since it's so
         // simple, but the idea applies.)
+        #[cfg(ripgrep_verif)]
+        let verif = VerifInfo {
+            hir: chir.hir().clone(),
+            literals: InnerLiterals::new(&chir, &regex).verif_literals(),
+            accelerated: regex.is_accelerated(),
+        };
         let fast_line_regex = InnerLiterals::new(&chir, &regex).one_regex()?;
 
         // We override the line terminator in case the configured HIR doesn't
         // support it.
         let mut config = self.config.clone();
         config.line_terminator = chir.line_terminator();
+        #[cfg(ripgrep_verif)]
+        return Ok(RegexMatcher {
+            config,
+            regex,
+            fast_line_regex,
+            non_matching_bytes,
+            verif,
+        });
+        #[cfg(not(ripgrep_verif))]
         Ok(RegexMatcher { config, regex, fast_line_regex, non_matching_bytes })
     }
 
@@ -377,6 +392,47 @@ pub struct RegexMatcher {
     fast_line_regex: Option<Regex>,
     /// A set of bytes that will never appear in a match.
     non_matching_bytes: ByteSet,
+    /// Verification hook data (only with `--cfg ripgrep_verif`).
+    #[cfg(ripgrep_verif)]
+    verif: VerifInfo,
+}
+
+/// Verification hook data kept beside a built matcher.
+#[cfg(ripgrep_verif)]
+#[derive(Clone, Debug)]
+struct VerifInfo {
+    /// The final HIR the regex was compiled from (after ban, strip and
+    /// word/line wrapping).
+    hir: regex_syntax::hir::Hir,
+    /// The inner literals the fast line regex was built from, with their
+    /// exactness, or `None` when the sequence was infinite.
+    literals: Option<Vec<(Vec<u8>, bool)>>,
+    /// Whether the main regex reported itself as accelerated.
+    accelerated: bool,
+}
+
+#[cfg(ripgrep_verif)]
+impl RegexMatcher {
+    /// Verification hook: the final HIR this matcher's regex was built from.
+    pub fn verif_hir_final(&self) -> &regex_syntax::hir::Hir {
+        &self.verif.hir
+    }
+
+    /// Verification hook: the extracted inner literals (bytes, exact) or
+    /// `None` if the extracted sequence was infinite.
+    pub fn verif_fast_line_literals(&self) -> Option<&[(Vec<u8>, bool)]> {
+        self.verif.literals.as_deref()
+    }
+
+    /// Verification hook: whether a fast candidate-line regex is in use.
+    pub fn verif_has_fast_line_regex(&self) -> bool {
+        self.fast_line_regex.is_some()
+    }
+
+    /// Verification hook: `Regex::is_accelerated` of the main regex.
+    pub fn verif_is_accelerated(&self) -> bool {
+        self.verif.accelerated
+    }
 }
 
 impl RegexMatcher {
